@@ -436,6 +436,43 @@ def shared(ctx, part, nparts):
             calls = [(cn, lambda C=C: getattr(C, fn)(av, u)) for cn, C in classes]
             calls.append(('Twist3', lambda: getattr(S.Twist3, fn)(av, u)))
             compare('a=%s' % an, fn, dict(angle=an, unit=u), rf(rad), calls)
+    # the translation option of the SE3 axis constructors and the pure translations: the same motion as [R(theta) t]
+    TL = [('g', np.array([0.5, -1.5, 2.0])), ('1e6', 1e6 * alph.unit((3, 1, 2))), ('1e-6', np.array([1e-6, 0, -2e-6]))]
+    for fn, rf in (('Rx', ref.rotx), ('Ry', ref.roty), ('Rz', ref.rotz)):
+        for (an, av, u), (tn, t), form in itertools.product(c01.angle_units(tier, seed)[::3], TL, ('1d', 'list', 'tuple')):
+            i += 1
+            if i % nparts != part:
+                continue
+            cid = 'C04/ctor/%s/SE3/a=%s/t=%s/%s' % (fn, an, tn, form)
+            if not ctx.want(cid):
+                continue
+            ctx.case(cid, key=cid)
+            rad = av if u == 'rad' else av * PI / 180
+            PP = dict(cls='SE3', fn=fn, angle=an, unit=u, t=tn, form=form)
+            targ = t.copy() if form == '1d' else (t.tolist() if form == 'list' else tuple(t.tolist()))
+            ok, o = call(lambda: getattr(S.SE3, fn)(av, u, t=targ))
+            if not ok:
+                ctx.fail(cid, 'SE3.' + fn, 'raises:' + type(o).__name__, PP, 'SE3.%s(theta, t=) raised %r' % (fn, o))
+            elif not hasattr(o, 'data') or len(o.data) != 1:
+                ctx.fail(cid, 'SE3.' + fn, 'returns:' + type(o).__name__, PP, 'expected one value')
+            else:
+                cmp(ctx, cid, 'SE3.' + fn, PP, o.data[0], ref.rt(rf(rad), t), max(1.0, float(np.linalg.norm(t))), 'SE3.%s(theta, t=t)' % fn)
+    for k, fn in enumerate(('Tx', 'Ty', 'Tz')):
+        for mn, m in (('0', 0.0), ('1e-6', 1e-6), ('g', -1.5), ('1e6', 1e6)):
+            cid = 'C04/ctor/%s/%s' % (fn, mn)
+            if part != 0 or not ctx.want(cid):
+                continue
+            ctx.case(cid, key=cid, trivial=(m == 0))
+            ok, o = call(lambda: getattr(S.SE3, fn)(m))
+            PP = dict(cls='SE3', fn=fn, t=mn)
+            if not ok:
+                ctx.fail(cid, 'SE3.' + fn, 'raises:' + type(o).__name__, PP, '%r' % (o,))
+            elif not hasattr(o, 'data') or len(o.data) != 1:
+                ctx.fail(cid, 'SE3.' + fn, 'returns:' + type(o).__name__, PP, 'expected one value')
+            else:
+                t = np.zeros(3)
+                t[k] = m
+                cmp(ctx, cid, 'SE3.' + fn, PP, o.data[0], ref.rt(np.eye(3), t), max(1.0, abs(m)), 'SE3.%s(%s)' % (fn, mn))
     # RPY / Eul
     SA, PA = c01.small_angles(tier, seed), c01.pitch_angles(tier, seed)
     for (rn, r), (pn, p), (yn, y) in itertools.product(SA, PA, SA):
